@@ -10,9 +10,10 @@ from .common import Check, cmat, fmt_ints, fmt_matrix, kv
 
 THEOREMS = [
     "Tsplib.walker_full", "Tsplib.walker_upperRow", "Tsplib.walker_lowerDiag", "Tsplib.walker_upperDiag",
-    "Tsplib.explicit_formats_agree", "Tsplib.section_load", "Tsplib.wrapping_irrelevant",
+    "Tsplib.explicit_formats_agree", "Tsplib.section_load", "Tsplib.wrapping_irrelevant", "Tsplib.explicit_section_loads",
     "Tsplib.blank_lines_ignored", "Tsplib.tokeniser_roundtrip", "Tsplib.accepted_entries_readable",
     "Tsplib.write_read_roundtrip", "Tsplib.write_read_same_instance", "Tsplib.tour_parser_perm",
+    "Tsplib.nint_unique", "Tsplib.ceil_unique", "Tsplib.att_is_ceil",
 ]
 
 ERRS = (ValueError, TypeError, OverflowError)
@@ -68,6 +69,8 @@ def impl_load(ck: Check, lines, lb: int, via_file: bool = False):
             inst = im._from_stream(iter(lines), lambda _n: lb)
     except ERRS:
         return None, "ERR"
+    except Exception as e:  # noqa: BLE001  (an exception the code is not meant to raise: reported, never hidden)
+        return None, f"EXC:{type(e).__name__}"
     return inst, show_inst(inst)
 
 
@@ -77,6 +80,8 @@ def impl_sect(fmt: str, n: int, lines):
         m = im._matrix_from_edge_weights(n, "EXPLICIT", fmt, iter(lines))
     except ERRS:
         return None, "ERR"
+    except Exception as e:  # noqa: BLE001
+        return None, f"EXC:{type(e).__name__}"
     return m.tolist(), f"M={cmat(m.tolist())}"
 
 
@@ -94,6 +99,8 @@ def impl_write(name: str, lb: int, mult: int, M, comments):
         bs = show_inst(back)
     except ERRS:
         back, bs = None, "ERR"
+    except Exception as e:  # noqa: BLE001
+        back, bs = None, f"EXC:{type(e).__name__}"
     return inst, back, f"L={esc(chr(10).join(text))} ## {bs}"
 
 
@@ -103,6 +110,8 @@ def impl_tour(lines):
         t = ko._from_stream(iter(lines))
     except ERRS:
         return None, "ERR"
+    except Exception as e:  # noqa: BLE001
+        return None, f"EXC:{type(e).__name__}"
     return [int(v) for v in t], f"t={','.join(str(int(v)) for v in t)} dtype={t.dtype}"
 
 
@@ -113,6 +122,8 @@ def impl_nums(line: str):
         im.__dict__["__line_to_nums"](line, out.append)
     except ERRS:
         return "ERR"
+    except Exception as e:  # noqa: BLE001
+        return f"EXC:{type(e).__name__}"
     res = []
     for v in out:
         if isinstance(v, int):
@@ -138,6 +149,8 @@ def impl_ints(line: str):
         r = im.__dict__["__read_n_ints"](len(out), iter([line]))
     except ERRS:
         return "ERR"
+    except Exception as e:  # noqa: BLE001
+        return f"EXC:{type(e).__name__}"
     return "I=" + ",".join(str(v) for v in r)
 
 
@@ -145,8 +158,13 @@ DIST = {"EUC_2D": "__dist_2deuc", "CEIL_2D": "__dist_2dceil", "ATT": "__dist_att
 
 
 def impl_dist(kind: str, a, b):
+    """the distance function; 999999999 stands for 'raised' or 'no non-negative int' (never a correct value here)"""
     im, _ = mods()
-    return im.__dict__[DIST[kind]](list(a), list(b))
+    try:
+        d = im.__dict__[DIST[kind]](list(a), list(b))
+    except Exception:  # noqa: BLE001
+        return 999999999
+    return d if isinstance(d, int) and d >= 0 else 999999999
 
 
 def py_num(tok: str):
@@ -243,7 +261,7 @@ def py_listing(fmt, M):
 
 def fancy_token(rng, v: int) -> str:
     """another spelling of the integer `v` that Python's int()/float() read as `v`"""
-    k = rng.randrange(9)
+    k = rng.randrange(10)
     s = str(abs(v))
     sign = "-" if v < 0 else ""
     if k == 0:
@@ -262,6 +280,8 @@ def fancy_token(rng, v: int) -> str:
         return f"{sign}{s[0]}_{s[1:]}"
     if k == 7 and len(s) < 15:
         return f"{sign}{s}0e-1"
+    if k == 8:
+        return f"{sign}{s}E0"
     return f"{sign}{s}"
 
 
@@ -373,7 +393,8 @@ def gen_load_cases(ck: Check, listings):
                 "9223372036854774784.0", "9223372036854775807.0", "1e19", "1e308", "1e309", "-0.0", "0.5", "1.5",
                 "2.0000000000000001", "1.9999999999999999", "1e-400", "5e-324", ".5e1", "5.e0", "0x10", "1_0", "1__0", "_1",
                 "1_", "+7", "+-7", "--7", "1e", "e1", ".", "1.2.3", "1e1e1", "nan", "inf", "-inf", "Infinity",
-                "1e+", "1E1", "00012", "1 ", "1\t", "\t1", "1\x0b", "1\xa0"):
+                "1e+", "1E1", "00012", "1 ", "1\t", "\t1", "1\x0b", "1\xa0", "1\x1c 2", "2 \x1c1", "1\x1f 2", "1\x85 2",
+                "1\u2003 2", "1.0\x1d 2", "1.0\x0c 2"):
         yield "boundary-token", header(rng, "t", "TSP", 2, "EXPLICIT", "UPPER_ROW", plain=True) + [
             "EDGE_WEIGHT_SECTION", tok, "EOF"], 0, None
     for diag in ("1e30", "7", "-3", "2.5", "1e400", "99999999999999"):
@@ -672,6 +693,27 @@ def streams(ck: Check) -> None:
                             {"lines": lines, "M": M, "got": np.asarray(inst).tolist()})
         add(line, fn)
 
+    # ---- a distance that is not an integer must be refused (never silently truncated)
+    for _ in range(40 if ck.quick else 600):
+        n = rng.choice([2, 3, 4])
+        M = rand_matrix(rng, n, 50, True)
+        fmt = rng.choice(FORMATS)
+        toks = [str(v) for v in py_listing(fmt, M)]
+        pos = [i for i, v in enumerate(py_listing(fmt, M)) if v != 0] or [0]
+        i = rng.choice(pos)
+        toks[i] = rng.choice([toks[i] + ".5", toks[i] + ".25", toks[i] + "5e-1", toks[i] + ".0000001"])
+        lines = (header(rng, "f", None, n, "EXPLICIT", fmt, plain=True) + ["EDGE_WEIGHT_SECTION"]
+                 + wrap(rng, toks, "random") + ["EOF"])
+        inst, iout = impl_load(ck, lines, 0)
+        line = f"load 0 {content(lines)}"
+        ck.case(line)
+        ck.count("nonintegral")
+
+        def fn(mout, line=line, iout=iout, lines=lines):
+            ck.compare("nonintegral", line, mout, iout)
+            ck.spec(iout == "ERR", "nonintegral", "a file with a non-integral distance is accepted", {"lines": lines, "got": iout})
+        add(line, fn)
+
     # ---- the section reader alone (matrices the constructor would reject included)
     for _ in range(80 if ck.quick else 2000):
         n = rng.choice([2, 3, 4, 5, 7])
@@ -763,7 +805,8 @@ def streams(ck: Check) -> None:
                  "2.5e-324", "1.7976931348623157e308", "1.7976931348623158e308", "1.7976931348623159e308", "1e400", "1e-400",
                  "123456789012345678901234567890.0", "0.000000000000000000000000000001e30", "1_0.0_1", "1._1", "x", "1x", "0x1",
                  "1.0.0", "--1", "+-1", "1e1.0", "1\t", "\t1", "1\t2", "1.e1", ".e1", "-.5", "+.5e+1", "1e0001", "0e999999999",
-                 "1e-999999999", "1e999999999", "0.0e400", "4.35", "2.675", "1.005", "8.41", "17.955", "1e15", "1e16", "123456789.125"]
+                 "1e-999999999", "1e999999999", "0.0e400", "4.35", "2.675", "1.005", "8.41", "17.955", "1e15", "1e16", "123456789.125", "9\x1c", "\x1c9", "9\x1d", "9\x1e", "9\x1f", "9\x85", "9\xa0",
+                 "9\u3000", "9\x0b", "9\x0c", "9.5\x1c", "9.0\x1f", "\x1e9e0"]
     for t in toks_pool:
         for lnv in (t, f" {t}  3", f"3 {t}"):
             add(f"nums {content([lnv])}", lambda mout, lnv=lnv: (ck.compare("nums", lnv, mout, impl_nums(lnv)), ck.count("nums")))
@@ -832,11 +875,7 @@ def streams(ck: Check) -> None:
                   for _ in range(4))
         if rng.random() < 0.1:
             p = (p[0], p[1], p[0], p[1])
-        try:
-            d = impl_dist("GEO", [py_num(t) for t in p[:2]], [py_num(t) for t in p[2:]])
-        except ValueError as e:      # acos domain error
-            ck.spec(False, "metric", f"GEO distance raises {e}", {"points": p})
-            continue
+        d = impl_dist("GEO", [py_num(t) for t in p[:2]], [py_num(t) for t in p[2:]])
         r = geo_check(p[:2], p[2:], d)
         ck.case(f"geo {p}")
         ck.count("metric-GEO-random" if r is not None else "metric-GEO-undecided")
@@ -855,7 +894,11 @@ def streams(ck: Check) -> None:
         has_tour = name in tours
         if (n > lim and not has_tour and kind == "EXPLICIT") or (ck.quick and n > 450):
             continue
-        inst = im.Instance.from_resource(name)
+        try:
+            inst = im.Instance.from_resource(name)
+        except Exception as e:  # noqa: BLE001
+            ck.spec(False, "shipped_load", f"shipped instance {name} does not load: {type(e).__name__}: {e}", {"name": name})
+            continue
         Mi = np.asarray(inst).tolist()
         lb = im.__dict__["_LOWER_BOUNDS"][name]
         full = n <= lim and (ck.quick or n <= 700)
@@ -891,7 +934,11 @@ def streams(ck: Check) -> None:
         if has_tour and (n <= lim):
             n_tours += 1
             tl = tsplib_text(name + ".opt.tour")
-            t = [int(v) for v in ko.opt_tour_from_resource(name)]
+            try:
+                t = [int(v) for v in ko.opt_tour_from_resource(name)]
+            except Exception as e:  # noqa: BLE001
+                ck.spec(False, "shipped_tour", f"shipped tour {name} does not load: {type(e).__name__}: {e}", {"name": name})
+                continue
             L = int(tour_length(inst, np.array(t)))
             if kind == "GEO" or not full:
                 line = f"tourL {fmt_matrix(Mi)} ; {fmt_ints(t)}"
@@ -956,19 +1003,26 @@ def check(ck: Check) -> None:
                "(exhaustive_enumeration; thorough: all 31). A case is one protocol line; distinct by line hash")
     ck.assumptions += [
         "ASCII input: non-ASCII decimal digits (accepted by Python's int()/float()) and non-ASCII names/upper() are outside the model",
-        "sanitize_name (moptipy) is modelled only by its ASCII fixed-point test (word characters, no '__', no '_' at either end)",
+        "sanitize_name (moptipy) is external: the driver uses its ASCII fixed-point test (word characters, no '__', no '_' at either end); "
+        "the round-trip theorem assumes its fixed points are non-empty, free of white space and of '.' (checked on random strings by this stream)",
         "float(str) is correctly rounded binary64 (modelled exactly in integer arithmetic, checked by the tokeniser stream)",
         "np.array(list, int64) / item assignment raise OverflowError outside int64; numpy zeros/reshape/fill_diagonal as modelled",
-        "Instance.__new__ = Tsp.mkInstance (C05)",
-        "sqrt/cos/acos (libm) and float arithmetic of the __dist_* functions are NOT modelled: the metric clause is a differential test "
-        "against exact integer/rational characterisations of TSPLIB95 (GEO: 80-digit decimal evaluation, deg = trunc as in the TSPLIB FAQ)",
+        "Instance.__new__ = Tsp.mkInstance (C05); the lower-bound getter is a parameter",
+        "distance functions: the model evaluates the TSPLIB95 definitions in IEEE-754 binary64 (every + - * / sqrt exactly rounded once, "
+        "Python int arithmetic exact); libm sqrt is assumed correctly rounded and pow(x, 2.0) = the rounded x*x; for integer coordinates the "
+        "result is additionally checked against the real-number definition (integer predicates IsEuc2d/IsCeil2d/IsAtt); cos/acos (GEO) are "
+        "not modelled: GEO is compared with an 80-digit decimal evaluation (deg = trunc as in the TSPLIB FAQ and the code)",
         "text files: universal-newline line splitting of open() is not modelled (lines are given to the model already split)",
     ]
     ck.not_proved += [
-        "metric clause (EUC_2D, CEIL_2D, ATT, GEO float code = TSPLIB95 definition): differential testing only, no theorem about floats",
+        "metric clause (EUC_2D, CEIL_2D, ATT, GEO float code = TSPLIB95 definition): differential testing only, no theorem about floats "
+        "(theorems nint_unique, ceil_unique, att_is_ceil concern the integer characterisations only)",
         "write_read_roundtrip carries the hypothesis n <= 10^9 (DIMENSION is read with check_to_int_range(.., 2, 10^9); the constructor "
         "itself has no such limit, but an instance with more cities cannot exist in memory) and non-blank comments "
         "(to_stream writes 'COMMENT: ' for a blank comment, which _from_stream rejects; default argument: no comments)",
+        "character level: the round trip is proved for the exact text to_stream produces (model of str(int), ' '.join, the header lines); "
+        "wrapping_irrelevant / section_load quantify over arbitrary lines through the tokeniser lineInts? (no grammar-level theorem that "
+        "every Python-accepted spelling of an integer denotes that integer beyond the canonical decimal text)",
         "shipped tours = documented optima: exhaustive_enumeration over the shipped files, not a theorem",
     ]
     ck.lean(["Props.C18"], THEOREMS)
